@@ -53,6 +53,10 @@ struct Workload {
   int compress_conn = -1;
   int sym_method = -1;
   int track = 0;
+  // Features the caller declares unsupported by the target decoder
+  // (EncoderOptions::SetSupportedFeature(..., false)): bit 0 = predictive
+  // (valence) Edgebreaker, bit 1 = Edgebreaker altogether.
+  int nofeat = 0;
   // Legacy-writer stub (simulates an encoder of an older bitstream, which the
   // current library can no longer produce but still decodes):
   //   0 = none (current encoder output as is)
